@@ -217,6 +217,9 @@ func describe(ms []svcdesc.Method) string {
 		if o.Custom != "" {
 			t = append(t, "custom="+o.Custom)
 		}
+		for _, f := range o.False {
+			t = append(t, f+"=false")
+		}
 		if m.ServerStream {
 			t = append(t, "server-stream")
 		}
@@ -398,6 +401,35 @@ func TrickyCases(rng *rand.Rand, prefix string) []Case {
 			{Name: "C", In: in, Out: out, Opts: svcdesc.Opts{Correctable: true, Custom: "Agg"}},
 		}
 	})
+	// options that are present with the explicit value false (undocumented: either branch, but never broken or unstable output)
+	for _, k := range []callKind{kRPC, kUnicast, kMulticast, kQC, kAsync, kCorr, kCorrStream} {
+		for _, off := range []string{"rpc", "unicast", "multicast", "quorumcall", "correctable", "async", "per_node_arg"} {
+			k, off := k, off
+			mk(fmt.Sprintf("explicit-false-%s-on-%s", off, k), func(b *builder) []svcdesc.Method {
+				m := b.legalMethod(k)
+				m.Opts.False = []string{off}
+				switch off { // (an option cannot be both true and false)
+				case "unicast":
+					m.Opts.Unicast = false
+				case "multicast":
+					m.Opts.Multicast = false
+				case "quorumcall":
+					m.Opts.Quorumcall = false
+				case "correctable":
+					m.Opts.Correctable = false
+				case "async":
+					m.Opts.Async = false
+				case "per_node_arg":
+					m.Opts.PerNodeArg = false
+				case "rpc":
+					m.Opts.RPC = false
+				}
+				in := b.addMsg("Req")
+				out := b.addMsg("Rep")
+				return []svcdesc.Method{m, {Name: "Plain", In: in, Out: out, Opts: svcdesc.Opts{Quorumcall: true}}}
+			})
+		}
+	}
 	mk("only-plain-rpc", func(b *builder) []svcdesc.Method {
 		in := b.addMsg("Req")
 		out := b.addMsg("Rep")
